@@ -41,6 +41,23 @@ pub fn rx(tier: Tier, segs: usize, lens: Vec<usize>, depth: usize) -> Driver {
     Driver { name: format!("rx-{segs}seg-lens{lens:?}"), cfg, prefix: vec![], alphabet, depth, state_cap: tier.pick(400_000, 6_000_000) }
 }
 
+/// Reads into an empty buffer between ordinary reads (a chunking an application may produce):
+/// they complete at once and never park the reader without a way to wake it.
+pub fn rx_empty_read(tier: Tier, depth: usize) -> Driver {
+    let mut d = rx(tier, 2, vec![MSS], depth);
+    d.name = "rx-empty-read".into();
+    d.alphabet = vec![data(0), Act::Deliver(Pkt::Fin { off: 0, ack: AckSpec::Cur }), Act::Read(0), Act::Read(64), Act::Tick, Act::Spurious, Act::DropReader];
+    d
+}
+
+/// Vectored reads: two buffers per call (either may be empty, the first may end inside a packet).
+pub fn rx_vectored(tier: Tier, depth: usize) -> Driver {
+    let mut d = rx(tier, 4, vec![MSS, 3], depth);
+    d.name = "rx-vectored".into();
+    d.alphabet = vec![data(0), data(1), Act::Deliver(Pkt::Fin { off: 0, ack: AckSpec::Cur }), Act::ReadV(4, 64), Act::ReadV(0, 7), Act::ReadV(MSS, 0), Act::ReadV(1, 1), Act::Read(5), Act::Tick];
+    d
+}
+
 /// Receiver whose segment size has grown beyond the initial one (link MTU 700, the peer sends 552-byte
 /// payloads into a 1200-byte buffer): the window rounds to zero below the *current* segment size.
 pub fn rx_grown_mss(tier: Tier, depth: usize) -> Driver {
@@ -560,6 +577,16 @@ pub fn tx_flow(tier: Tier, init: usize, max: usize, depth: usize) -> Driver {
     Driver { name: format!("tx-flow-{init}-{max}"), cfg, prefix: vec![], alphabet, depth, state_cap: tier.pick(400_000, 6_000_000) }
 }
 
+/// Writes of zero bytes between ordinary writes ("all write sizes"): they complete at once and never
+/// park the writer while the ring has room.
+pub fn tx_empty_write(tier: Tier, depth: usize) -> Driver {
+    let mut d = tx_flow(tier, 8, 8, depth);
+    d.name = "tx-empty-write".into();
+    let w = |b: usize| WndSpec::Bytes(b as u32);
+    d.alphabet = vec![Act::Write(0), Act::Write(5), Act::Write(8), state(AckSpec::All, w(1 << 20), SackSpec::None), state(AckSpec::Plus(1), w(1 << 20), SackSpec::None), Act::Flush, Act::Shutdown, Act::Tick];
+    d
+}
+
 /// Ring growth with a partly filled ring: the congestion window has outgrown the 20-byte ring, which
 /// grows (towards 80) as soon as it is more than 90 % full - i.e. with one byte still free.
 pub fn tx_grow(tier: Tier, depth: usize) -> Driver {
@@ -715,6 +742,17 @@ pub fn mtu(tier: Tier, link_mtu: usize, path_limit: Option<usize>, emsgsize: Opt
     Driver { name: format!("mtu-{link_mtu}-path{path_limit:?}-emsg{emsgsize:?}-retx{probe_retx}"), cfg, prefix, alphabet, depth, state_cap: tier.pick(200_000, 3_000_000) }
 }
 
+/// A jumbo link (MTU 9000): the first probe sizes are larger than the initial congestion window.
+pub fn mtu_jumbo(tier: Tier, probe_retx: usize, depth: usize) -> Driver {
+    let mut d = mtu(tier, 9000, None, None, probe_retx, depth);
+    d.cfg.rx_buf = 256 * 1024;
+    d.cfg.tx_init = 256 * 1024;
+    d.cfg.tx_max = 256 * 1024;
+    d.alphabet[0] = Act::Write(30_000);
+    d.alphabet[7] = Act::Deliver(Pkt::DataLen { off: 0, len: 6000 });
+    d
+}
+
 /// The same over IPv6 (48 bytes of IP + UDP header, minimum MTU 1280): link MTU 1400, sizes 1212..1332.
 pub fn mtu_v6(tier: Tier, path_limit: Option<usize>, probe_retx: usize, depth: usize) -> Driver {
     let mut d = mtu(tier, 1400, path_limit, None, probe_retx, depth);
@@ -785,6 +823,8 @@ pub fn run_and_report(ctx: &Ctx, d: &Driver, out: &mut Outcome) {
 pub fn all_drivers(tier: Tier) -> Vec<Driver> {
     let mut v = vec![rx(tier, 2, vec![MSS], 6), rx(tier, 4, vec![MSS, 1], 6), rx(tier, 4, vec![1, MSS], 6), rx(tier, 3, vec![MSS - 1], 6), rx_halfclosed(tier, 6), rx_rude(tier, 6)];
     v.push(rx_grown_mss(tier, 6));
+    v.push(rx_empty_read(tier, 5));
+    v.push(rx_vectored(tier, 5));
     v.push(rx_growing_mss(tier, 6));
     v.push(rx_reader_gone(tier, 6));
     v.push(rx_probe_then_fin(tier, 6));
@@ -814,6 +854,7 @@ pub fn all_drivers(tier: Tier) -> Vec<Driver> {
     }
     v.push(close(tier, 6));
     v.push(tx_grow(tier, 5));
+    v.push(tx_empty_write(tier, 5));
     v.extend(hostile_all(tier, 2));
     v.push(mtu(tier, 700, Some(600), None, 0, 6));
     v.push(mtu(tier, 700, None, None, 1, 6));
@@ -821,6 +862,7 @@ pub fn all_drivers(tier: Tier) -> Vec<Driver> {
     v.push(mtu_probe_sacked(tier, 1, 5));
     v.push(mtu_probe_sacked_bidir(tier, 0, 5));
     v.push(mtu_v6(tier, Some(1300), 1, 5));
+    v.push(mtu_jumbo(tier, 1, 5));
     v.push(nagle_mtu(tier, false, 1, 5));
     v.push(nagle_mtu(tier, true, 1, 5));
     v
